@@ -6,7 +6,9 @@
 
     Two kinds of clauses: those that hold whatever the underlying agent does
     (every fault script), and the exact pass-through clauses, which are about a
-    healthy agent and are evaluated on fault-free histories only ([ff]). *)
+    healthy agent: they are evaluated on every operation that starts when no
+    fault is pending any more ([pend k] = the script still holds a fault for a
+    request number >= k) and the connection works. *)
 From Verif Require Import Lib.Base Lib.Json Model.KeyId Model.UAgent Model.Shim Model.ShimCheck Model.C07Check
   Model.C09Check Generated.ShimGen.
 
@@ -31,10 +33,10 @@ Section Oracle.
 
   Definition is_ok_reply (r : reply) : bool := match r with ROk => true | _ => false end.
 
-  Definition oracle_step (ff nu : bool) (pre : obs) (st : sstep) : bool :=
+  Definition oracle_step (pend : nat -> bool) (nu : bool) (pre : obs) (st : sstep) : bool :=
     let post := s_obs st in
     let r := s_reply st in
-    let healthy := ff && obs_live pre in
+    let healthy := negb (pend (o_reqno pre)) && obs_live pre in
     survive pre post (s_now st) (s_op st) &&
     if o_locked pre then true
     else
@@ -106,26 +108,28 @@ Section Oracle.
           else
             match r with
             | RRaw x => N.eqb x raw && listN_eqb (o_rawlog post) (o_rawlog pre ++ [raw])
-            | RRawInjected _ => negb ff
+            | RRawInjected _ => pend (o_reqno pre)
             | RErr _ => negb healthy || (max_frame <? rlen)%N
             | _ => false
             end
       | _ => true
       end.
 
-  Definition oracle (ff nu : bool) (obs0 : obs) (steps : list sstep) : bool :=
-    all_steps (oracle_step ff nu) obs0 steps.
+  Definition oracle (pend : nat -> bool) (nu : bool) (obs0 : obs) (steps : list sstep) : bool :=
+    all_steps (oracle_step pend nu) obs0 steps.
 End Oracle.
 
 Definition is_nil {A} (l : list A) : bool := match l with [] => true | _ => false end.
 
+(** [pending scr k]: the installed script holds a fault for a request number >= k. *)
+Definition pending (scr : list (nat * fault)) (k : nat) : bool := existsb (fun p => Nat.leb k (fst p)) scr.
+
 Definition check (c : case) : N :=
   match c with
   | CHist tbl nu ids0 scr built obs0 steps =>
-      let ff := is_nil scr in
       (* construction: a healthy agent always yields a server; a failure yields an error (a crash is reported natively) *)
-      if negb (built || negb ff) then 2
-      else if negb (oracle (info_of tbl) ff nu obs0 steps) then 2
+      if negb (built || pending scr 0) then 2
+      else if negb (oracle (info_of tbl) (pending scr) nu obs0 steps) then 2
       else if agree_hist tbl nu ids0 scr built obs0 steps then 0 else 1
   | _ => 3
   end.
